@@ -161,7 +161,8 @@ def run_case(case):
             if n in keyed_names:
                 for f_ in sf_:
                     if f_['name'] == 'tag':
-                        f_['constraints'] = {'enum': ['T%d' % keyed_names[n]], 'pattern': 'T%d' % keyed_names[n]}
+                        f_['constraints'] = {'enum': ['T%d' % keyed_names[n]], 'pattern': 'T%d' % keyed_names[n],
+                                             'required': True}
             out.append(lab.source(n, sf_, tables[n]))
             if n in keyed_names:
                 out.append(d.set_primary_key(['seq'], resources=n))
@@ -181,7 +182,20 @@ def run_case(case):
 
     if fam == 'concatenate':
         form = rng.choice(['none', 'regex', 'list', 'int', 'one'])
-        if form == 'none':
+        if nres >= 3 and not shared_schema and boot.rng(case['seed'], 'C16', 'alt', case['idx']).random() < 0.2:
+            # alternation 'rA|rB' while a THIRD resource is named 'rA_copy' (duplicate's default name): only full matches count
+            form = 'alternation'
+            old_, new_ = names[2], names[0] + '_copy'
+            names[2] = new_
+            fields[new_] = fields.pop(old_)
+            tables[new_] = tables.pop(old_)
+            exp = {n: ('same', n) for n in names}
+            exp_order = list(names)
+            cfg['names'] = list(names)
+            cfg['sizes'] = {n: len(tables[n]) for n in names}
+            selector = '%s|%s' % (names[0], names[1])
+            cov['config']['concatenate/alternation_with_prefix_named_sibling'] = 1
+        elif form == 'none':
             selector = None
         elif form == 'regex':
             lo = rng.randrange(nres)
@@ -228,11 +242,16 @@ def run_case(case):
         if keyed:
             # every selected resource has a valid key of its own ('seq' counts its rows) and constraints of its own on a
             # common field: what the target declares must hold for ALL the rows it receives
+            # ... and one of several selected resources may not have the constrained field at all (its rows get null there)
+            lacks_tag = sel[-1] if len(sel) > 1 and boot.rng(case['seed'], 'C16', 'lacks', case['idx']).random() < 0.5 else None
+            if lacks_tag:
+                cov['config']['concatenate/required_field_missing_in_one_selected_resource'] = 1
             for j_, n in enumerate(sel):
-                fields[n] = fields[n] + [('seq', 'integer'), ('tag', 'string')]
+                fields[n] = fields[n] + [('seq', 'integer')] + ([('tag', 'string')] if n != lacks_tag else [])
                 for i_, r in enumerate(tables[n]):
                     r['seq'] = i_
-                    r['tag'] = 'T%d' % j_
+                    if n != lacks_tag:
+                        r['tag'] = 'T%d' % j_
             mapping['seq'] = []
             mapping['tag'] = []
             types['seq'] = 'integer'
@@ -248,7 +267,7 @@ def run_case(case):
             for n in sel:
                 for r in tables[n][::3]:
                     for k in list(r):
-                        if not (keyed and k == 'seq'):      # (a source's own key stays a valid key)
+                        if not (keyed and k in ('seq', 'tag')):      # (a source's own key / required field stays valid)
                             r[k] = None
             cov['config']['concatenate/rows_with_all_mapped_cells_null'] = 1
             cfg['all_null_rows'] = True
